@@ -17,7 +17,7 @@ contract('parso.python.parser.Parser._recovery_tokenize', kind='generator',
                         lists_modified=['self._omit_dedent_list'],
                         body_ensures=['implies(old(len(self._omit_dedent_list)) == 0, '
                                       'nyield == nyield0 + 1 and last_yield is token and len(self._omit_dedent_list) == 0)'])},
-         props=['C07'])
+         modifies=['_indent_counter', '_omit_dedent_list'], lists=['self._omit_dedent_list'], props=['C07'])
 
 contract('parso.python.parser.Parser.__init__',
          params={'self': 'ref:Parser', 'pgen_grammar': 'ref', 'error_recovery': 'bool', 'start_nonterminal': 'str'},
@@ -75,6 +75,10 @@ NODES_NN = ('forall(lambda k, j: implies(0 <= k and k < len(self.stack) and 0 <=
             'self.stack[k].nodes[j] is not None), kinds=dict(k="int", j="int"))')
 ARCS_WF = ("forall(lambda d, s: implies(d is not None and s in d.arcs, d.arcs[s] is not None), "
            "kinds=dict(d='ref:DFAState', s='str'))")
+# Node constructors reached through convert_node (Function.__init__ / Lambda.__init__ regroup the parameters) change the
+# children list of a node inside the subtree being built.  Such a list left the parser stack when its entry was popped, so
+# it is none of self.stack / self.stack[k].nodes: an ownership argument that the frame check does not make (assumed).
+NODE_CTOR = {'children': 'children lists of already popped subtrees are not stack-resident lists (ownership, assumed)'}
 ROOT_OPEN = 'not self.stack[0].dfa.is_final'      # the start rule is complete only after ENDMARKER, which is the last token
 
 contract('parso.parser.StackNode.__init__', params={'self': 'ref:StackNode', 'dfa': 'ref:DFAState'},
@@ -86,12 +90,14 @@ contract('parso.parser.BaseParser._pop', params={'self': 'ref:BaseParser'},
          ensures=[NODES_NN, 'len(self.stack) == old(len(self.stack)) - 1',
                   'forall(lambda k: implies(0 <= k and k < len(self.stack), self.stack[k] is old(self.stack[k])), trigger=lambda k: self.stack[k])',
                   'len(self.stack[len(self.stack) - 1].nodes) == old(len(self.stack[len(self.stack) - 2].nodes)) + 1'],
+         modifies=['parent', 'children'], frame_assumed=NODE_CTOR,
          lists=['self.stack', 'self.stack[len(self.stack) - 2].nodes'], props=['C02', 'C01'])
 
 contract('parso.parser.BaseParser.convert_node',
          params={'self': 'ref:BaseParser', 'nonterminal': 'str', 'children': 'list:ref:NodeOrLeaf'}, returns='ref:BaseNode',
-         trusted=True, ensures=['result is not None'], modifies=['parent'], lists=[],
-         note='assumed: builds a node object (dynamic class lookup in node_map); only non-nullness is used')
+         trusted=True, ensures=['result is not None'], modifies=['parent', 'children'], lists=[],
+         note='assumed: builds a node object (dynamic class lookup in node_map); only non-nullness is used; lists=[] is the '
+              'ownership assumption NODE_CTOR (only children lists of already popped subtrees change)')
 contract('parso.parser.BaseParser.convert_leaf',
          params={'self': 'ref:BaseParser', 'type_': 'ref', 'value': 'str', 'prefix': 'str', 'start_pos': 'pos'},
          returns='ref:Leaf', trusted=True, ensures=LEAF_OF_TOKEN, lists=[],
@@ -103,7 +109,8 @@ contract('parso.parser.BaseParser.error_recovery#dispatch', params={'self': 'ref
                    'self._pgen_grammar is not None', 'self.stack is not None', 'len(self.stack) >= 1', STACK_WF,
                    TABLES_WF, PUSHES_WF, DISJOINT, ROOT_OPEN, NODES_NN, ARCS_WF],
          ensures=['self.stack is not None', 'len(self.stack) >= 1', STACK_WF, NODES_NN],
-         raises=['ParserSyntaxError', 'NotImplementedError', 'InternalParseError'], modifies=['dfa', 'parent', 'stack'], lists=None,
+         raises=['ParserSyntaxError', 'NotImplementedError', 'InternalParseError'],
+         modifies=['dfa', 'parent', 'children', 'stack', 'nodes', '_omit_dedent_list'], lists='*',
          raises_ensures={'ParserSyntaxError': LEAF_IS_TOKEN},
          note='assumed (dynamic dispatch to Parser.error_recovery): re-establishes the stack shape; not verified')
 
@@ -123,6 +130,7 @@ contract('parso.parser.BaseParser._add_token', params={'self': 'ref:BaseParser',
                 1: dict(invariant=['stack is self.stack', 'stack is not None', 'len(stack) >= 1', STACK_WF, PUSHES_WF, NODES_NN,
                                    'plan is not None and plan.dfa_pushes is not None and stack is not plan.dfa_pushes'],
                         len_stable=True, lists_modified=['stack'])},
+         modifies=['dfa', 'parent', 'children', 'stack', 'nodes', '_omit_dedent_list'], lists='*', frame_assumed=NODE_CTOR,
          # self.error_recovery(token) is dispatched dynamically: the assumed contract of any overrider
          call_keys={'parso.parser.BaseParser.error_recovery': 'parso.parser.BaseParser.error_recovery#dispatch'},
          props=['C02', 'C01'])
@@ -167,7 +175,8 @@ contract('parso.python.parser.Parser.error_recovery#strict', params={'self': 're
                   'self._start_nonterminal == "file_input"', 'old(%s.dfa.from_rule) == "simple_stmt"' % TOP],
          raises=['ParserSyntaxError', 'NotImplementedError', 'InternalParseError'],
          raises_ensures={'ParserSyntaxError': LEAF_IS_TOKEN},
-         modifies=['dfa', 'parent', 'stack'], call_keys=LAST_LEAF_NN, globals_={'DEDENT': 'ref:PythonTokenTypes'},
+         modifies=['dfa', 'parent', 'children', 'stack', 'nodes', '_omit_dedent_list'], lists='*', frame_assumed=NODE_CTOR,
+         call_keys=LAST_LEAF_NN, globals_={'DEDENT': 'ref:PythonTokenTypes'},
          props=['C07'])
 
 # ---- C02: the recovery path.  Parser.error_recovery (recovery mode) and _stack_removal against the contract that
@@ -210,6 +219,6 @@ contract('parso.python.parser.Parser.error_recovery#recover', params={'self': 'r
          ensures=['self.stack is not None', 'len(self.stack) >= 1', STACK_WF, NODES_NN],
          raises=['ParserSyntaxError', 'NotImplementedError', 'InternalParseError'],
          raises_ensures={'ParserSyntaxError': LEAF_IS_TOKEN},
-         modifies=['dfa', 'parent', 'stack'], call_keys=LAST_LEAF_NN,
-         globals_={'DEDENT': 'ref:PythonTokenTypes', 'INDENT': 'ref:PythonTokenTypes'},
+         modifies=['dfa', 'parent', 'children', 'stack', 'nodes', '_omit_dedent_list'], lists='*', frame_assumed=NODE_CTOR,
+         call_keys=LAST_LEAF_NN, globals_={'DEDENT': 'ref:PythonTokenTypes', 'INDENT': 'ref:PythonTokenTypes'},
          props=['C02'])
